@@ -58,12 +58,26 @@ def _single_defs(fn):
     return defs
 
 
-def directive_reads(fn):
-    """constant-key reads of a `<X>.directives` mapping with X != self (also through a local alias of the mapping) -> [(key, X expression, line)]"""
+def directive_reads(fn, mapping_param=None):
+    """constant-key reads of a `<X>.directives` mapping with X != self (also through a local alias of the mapping) -> [(key, X expression, line)];
+    with `mapping_param`: the reads of that parameter (a directives mapping handed in by the caller) instead, X = the parameter Name"""
     defs = _single_defs(fn)
+
+    def const_key(e):
+        if isinstance(e, ast.Constant) and isinstance(e.value, str):
+            return e.value
+        if isinstance(e, ast.Name) and len(defs.get(e.id, ())) == 1 and isinstance(defs[e.id][0], ast.Constant) and isinstance(defs[e.id][0].value, str):
+            return defs[e.id][0].value
+        return None
 
     def mapping_recv(e, depth=0):
         """e is an expression used as a directives mapping: -> the scope expression X, or None"""
+        if mapping_param is not None:
+            if isinstance(e, ast.Name) and e.id == mapping_param and e.id not in defs:
+                return e
+            if isinstance(e, ast.Name) and depth < 3 and len(defs.get(e.id, ())) == 1 and defs[e.id][0] is not None:
+                return mapping_recv(defs[e.id][0], depth + 1)
+            return None
         if isinstance(e, ast.Attribute) and e.attr == 'directives':
             if isinstance(e.value, ast.Name) and e.value.id == 'self':
                 return None
@@ -74,14 +88,12 @@ def directive_reads(fn):
     out = []
     for n in walk_no_nested(fn):
         key = recv = None
-        if isinstance(n, ast.Subscript) and isinstance(n.ctx, ast.Load) and isinstance(n.slice, ast.Constant) and isinstance(n.slice.value, str):
-            key, recv = n.slice.value, mapping_recv(n.value)
-        elif isinstance(n, ast.Call) and isinstance(n.func, ast.Attribute) and n.func.attr == 'get' and n.args and isinstance(n.args[0], ast.Constant) \
-                and isinstance(n.args[0].value, str):
-            key, recv = n.args[0].value, mapping_recv(n.func.value)
-        elif isinstance(n, ast.Compare) and len(n.ops) == 1 and isinstance(n.ops[0], (ast.In, ast.NotIn)) and isinstance(n.left, ast.Constant) \
-                and isinstance(n.left.value, str):
-            key, recv = n.left.value, mapping_recv(n.comparators[0])
+        if isinstance(n, ast.Subscript) and isinstance(n.ctx, ast.Load) and const_key(n.slice) is not None:
+            key, recv = const_key(n.slice), mapping_recv(n.value)
+        elif isinstance(n, ast.Call) and isinstance(n.func, ast.Attribute) and n.func.attr == 'get' and n.args and const_key(n.args[0]) is not None:
+            key, recv = const_key(n.args[0]), mapping_recv(n.func.value)
+        elif isinstance(n, ast.Compare) and len(n.ops) == 1 and isinstance(n.ops[0], (ast.In, ast.NotIn)) and const_key(n.left) is not None:
+            key, recv = const_key(n.left), mapping_recv(n.comparators[0])
         if key is not None and recv is not None:
             out.append((key, recv, n.lineno))
     return out
@@ -143,14 +155,54 @@ def _call_sites(ix, cls, mname):
 
 
 def whole_mapping_uses(fn):
-    """`<scope>.directives` (not self) passed on as a whole (argument of a call): not decided, listed"""
+    """`<scope>.directives` (not self) passed on as a whole (argument of a call) -> [(text, line, Call, position or keyword)]"""
     out = []
     for n in walk_no_nested(fn):
         if isinstance(n, ast.Call):
-            for a in list(n.args) + [k.value for k in n.keywords]:
+            for where, a in list(enumerate(n.args)) + [(k.arg, k.value) for k in n.keywords]:
                 if isinstance(a, ast.Attribute) and a.attr == 'directives' and not (isinstance(a.value, ast.Name) and a.value.id == 'self'):
-                    out.append((_u(a), n.lineno))
+                    out.append((_u(a), n.lineno, n, where))
     return out
+
+
+def _callee(ix, cls, call):
+    """-> (FunctionDef, number of leading parameters bound implicitly) of a call to a module-level function / a method of self, or None"""
+    f = call.func
+    try:
+        if isinstance(f, ast.Name):
+            r = ix.resolve_name(cls.module, f.id)
+            if r and r[0] == 'func':
+                return r[2], 0
+        elif isinstance(f, ast.Attribute) and isinstance(f.value, ast.Name):
+            if f.value.id == 'self':
+                m = ix.find_method(cls, f.attr)
+                if m:
+                    return m[1], 1
+            else:
+                r = ix.resolve_name(cls.module, f.value.id)
+                if r and r[0] == 'module' and f.attr in r[1].functions:
+                    return r[1].functions[f.attr], 0
+    except Exception:
+        return None
+    return None
+
+
+def passed_mapping_reads(ix, cls, call, where):
+    """constant keys the callee reads from the mapping passed at `where` -> [(key, callee name, line)] | None when the callee is not resolved"""
+    r = _callee(ix, cls, call)
+    if r is None:
+        return None
+    fn, off = r
+    params = [a.arg for a in fn.args.args] + [a.arg for a in fn.args.kwonlyargs]
+    if isinstance(where, int):
+        if where + off >= len(fn.args.args):
+            return None
+        pname = fn.args.args[where + off].arg
+    elif where in params:
+        pname = where
+    else:
+        return None
+    return [(key, fn.name, line) for key, _, line in directive_reads(fn, mapping_param=pname)]
 
 
 def envread_findings(ix, classes, scopes):
@@ -168,10 +220,23 @@ def envread_findings(ix, classes, scopes):
                     elif 'with statement' in legal:
                         problem = 'may be set by a with statement (Options.directive_scopes: %s)' % ', '.join(legal)
                 rows.append(('%s.%s:%s' % (c.name, mname, key), c, mname, key, kind, text, line, problem))
-            for text, line in whole_mapping_uses(fn):
+            for text, line, call, where in whole_mapping_uses(fn):
                 kind, res = classify_scope(ix, c, fn, ast.parse(text, mode='eval').body.value)
-                if kind == 'env' and ('env' in res or 'scope' in res):
-                    infos.append('%s.%s passes %s on as a whole (line %d): inheritance from the scope instead of the position is not decided' % (c.name, mname, text, line))
+                if kind != 'env' or not ('env' in res or 'scope' in res):
+                    continue
+                reads = passed_mapping_reads(ix, c, call, where) if hasattr(ix, 'resolve_name') else None
+                if not reads:
+                    infos.append('%s.%s passes %s on as a whole to %s (line %d): %s' % (c.name, mname, text, _u(call.func), line,
+                                 'the callee is not resolved' if reads is None else 'the callee reads no constant key of it; inheritance from the scope instead of the position is not decided'))
+                    continue
+                for key, callee, _ in reads:
+                    legal = scopes.get(key)
+                    problem = None
+                    if not legal:
+                        problem = 'may be set anywhere (Options.directive_scopes does not confine it)'
+                    elif 'with statement' in legal:
+                        problem = 'may be set by a with statement (Options.directive_scopes: %s)' % ', '.join(legal)
+                    rows.append(('%s.%s:%s' % (c.name, mname, key), c, mname, key, kind, '%s (handed to %s, which reads it)' % (res, callee), line, problem))
     return rows, infos
 
 
@@ -334,6 +399,17 @@ class PathExec:
         if isinstance(s, (ast.With, ast.Try)):
             self._block(list(s.body) + list(getattr(s, 'finalbody', []) or []) + rest, env, facts, appended, out, ret)
             return
+        call = s.value if isinstance(s, (ast.Assign, ast.Expr)) and isinstance(s.value, ast.Call) else None
+        if call is not None and self._inlinable(call):
+            # a helper method of the same class: its paths (facts, appended trees, returned value) continue the caller's path
+            sub = PathExec(self.cls, self.cls.methods[call.func.attr], self.inline_depth - 1)
+            for f2, a2, r2 in sub.run([('self',)] + [self._expr(a, env) for a in call.args]):
+                env2 = dict(env)
+                if isinstance(s, ast.Assign):
+                    for t in s.targets:
+                        self._assign(t, r2 if r2 is not None else ('const', None), env2)
+                self._block(rest, env2, facts + f2, appended + a2, out, ret)
+            return
         if isinstance(s, ast.Assign):
             v = self._expr(s.value, env)
             for t in s.targets:
@@ -354,6 +430,11 @@ class PathExec:
                 self._expr(c, env)
         # assert / pass / nested def / anything else: no effect on the tracked values
         self._block(rest, env, facts, appended, out, ret)
+
+    def _inlinable(self, e):
+        f = e.func
+        return isinstance(f, ast.Attribute) and isinstance(f.value, ast.Name) and f.value.id == 'self' and self.cls is not None and self.inline_depth > 0 \
+            and f.attr in self.cls.methods and not any(isinstance(a, ast.Starred) for a in e.args) and not e.keywords
 
     def _assign(self, t, v, env):
         if isinstance(t, ast.Name):
@@ -378,6 +459,13 @@ class PathExec:
             return ('sub', self._expr(e.value, env), _u(e.slice))
         if isinstance(e, ast.IfExp):
             return ('ifexp', self._expr(e.body, env), self._expr(e.orelse, env))
+        if isinstance(e, ast.Compare) and len(e.ops) == 1 and isinstance(e.ops[0], (ast.Eq, ast.NotEq, ast.Is, ast.IsNot)):
+            return ('cmpv', self._expr(e.left, env), self._expr(e.comparators[0], env), isinstance(e.ops[0], (ast.Eq, ast.Is)))
+        if isinstance(e, ast.UnaryOp) and isinstance(e.op, ast.Not):
+            v = self._expr(e.operand, env)
+            if v[0] == 'cmpv':
+                return ('cmpv', v[1], v[2], not v[3])
+            return ('opaque', _u(e))
         if isinstance(e, ast.Call):
             f = e.func
             nm = f.attr if isinstance(f, ast.Attribute) else f.id if isinstance(f, ast.Name) else None
@@ -387,15 +475,13 @@ class PathExec:
                 body = kw.get('body', pos[1] if len(pos) > 1 else ('opaque', '<no body>'))
                 d = kw.get('directives', pos[2] if len(pos) > 2 else ('opaque', '<no directives>'))
                 return ('wrap', body, d, e.lineno)
-            if isinstance(f, ast.Attribute) and isinstance(f.value, ast.Name) and f.value.id == 'self' and self.cls is not None and self.inline_depth > 0 \
-                    and nm in self.cls.methods and not any(isinstance(a, ast.Starred) for a in e.args) and not e.keywords:
+            if self._inlinable(e):
                 sub = PathExec(self.cls, self.cls.methods[nm], self.inline_depth - 1)
                 rets = [r for _, _, r in sub.run([('self',)] + [self._expr(a, env) for a in e.args]) if r is not None]
-                kinds = {repr(r) for r in rets}
-                if len(kinds) == 1:
+                if rets and len({repr(r) for r in rets}) == 1:
                     return rets[0]
                 if rets:
-                    return ('either', [r for r in rets])
+                    return ('either', rets)
             if isinstance(f, ast.Attribute):
                 return ('mcall', self._expr(f.value, env), nm)
             return ('opaque', _u(e))
@@ -411,10 +497,9 @@ class PathExec:
             if isinstance(test.op, ast.And):
                 return [x for t, _ in parts for x in t], []
             return [], [x for _, f in parts for x in f]
-        if isinstance(test, ast.Compare) and len(test.ops) == 1 and isinstance(test.ops[0], (ast.Eq, ast.NotEq, ast.Is, ast.IsNot)):
-            a, b = self._expr(test.left, env), self._expr(test.comparators[0], env)
-            eq = isinstance(test.ops[0], (ast.Eq, ast.Is))
-            return [('same', a, b, eq)], [('same', a, b, not eq)]
+        v = self._expr(test, env)
+        if v[0] == 'cmpv':
+            return [('same', v[1], v[2], v[3])], [('same', v[1], v[2], not v[3])]
         return [], []
 
 
@@ -471,6 +556,8 @@ def wrapper_sides(cls):
     """every CompilerDirectivesNode(...) construction in the methods of the class: (method, line, body value, directives value)"""
     out = []
     for mname, fn in cls.methods.items():
+        if not any(isinstance(n, ast.Call) and (getattr(n.func, 'attr', None) or getattr(n.func, 'id', None)) == WRAPPER for n in walk_no_nested(fn)):
+            continue
         px = PathExec(cls, fn, inline_depth=0)
         env = {a.arg: (('self',) if i == 0 and a.arg == 'self' else ('param', a.arg)) for i, a in enumerate(fn.args.args)}
         for n in walk_no_nested(fn):
@@ -493,6 +580,8 @@ def merge_callers(ix, cls, mname):
     fn = cls.methods[mname]
     pnames = [a.arg for a in fn.args.args][1:]
     for m in ix.modules.values() if isinstance(ix.modules, dict) else ix.modules:
+        if ('.%s(' % mname) not in (m.src or ''):
+            continue
         for qn, owner, f in ix.functions_of(m):
             bound = {}           # name -> id of the binding construct (for-target tuple / assignment tuple)
             for n in ast.walk(f):
